@@ -97,6 +97,10 @@ def one_repo(arg):
     try:
         m = G.random_model(rng, size=rng.choice(["small", "medium"]), hostile_names=rng.random() < 0.3)
         m.bare = False
+        # several sibling refgroups (and a nested pair) so that the order of their rows is part of the output
+        m.config = "".join('[refgroup "%s"]\n\tinclude = %s\n' % (g, pat) for g, pat in [
+            ("zeta", "refs/heads"), ("alpha", "refs/tags"), ("mid", "refs"), ("beta", "refs/remotes"), ("omega", "refs/heads"),
+            ("kappa", "refs/notes"), ("mid.one", "refs/heads"), ("mid.two", "refs/tags"), ("mid.three", "refs/remotes")])
         work = os.path.join(d, "repo")
         gitdir = G.write_model(m, work)
         # a work tree file, an index and (sometimes) a linked worktree / packed layout, all before the snapshot
